@@ -17,10 +17,10 @@ TEXT = {
     "C08": ("The only check that takes verdicts from seeded permutations of the wake-up order: contraction, shadow re-execution fixpoint at every pass end, equality with the reference greatest fixpoint when all executions were observed exact.", "4/C08"),
     "C09": ("Random legal push/pop sequences on the real stack arrays through the real value heuristics and backtrack against a reference stack (partition, announced events, restored domains and flags), plus the same oracle inside every simulated search.", "4/C09"),
     "C10": ("Speculative-probe / rollback invariants monitored around every real call of the shaving algorithm and of each probe in simulated searches, plus differential results against plain bound consistency via the reference.", "4/C10"),
-    "C11": ("The real MultiprocessingSolver parent loop runs against in-process SimProcess/SimQueue fakes; a seeded scheduler decides every delivery, latency, stall and late pickle; results, return point and aggregated statistics are compared with the reference reducer.", "4/C11"),
+    "C11": ("The real MultiprocessingSolver parent loop runs against in-process SimProcess/SimQueue fakes; a seeded scheduler decides every delivery, latency, stall and late pickle; results, return point and aggregated statistics are compared with the reference reducer. Calls of one instance are chained (earlier calls completed, abandoned or failed); a queue created by the constructor is simulated too and carries what earlier calls left in it.", "4/C11"),
     "C12": ("Input sweep of Problem.split executed through the multi-process simulation: original unchanged, parts differ in one domain, each part solved by a simulated worker under a step budget, disjoint union equals the reference.", "4/C12"),
     "C13": ("Seeded meaning-preserving rewrites of generated and shipped models; solution sets / optima equal after the inverse renaming. Metamorphic relations with seeded generation, replay and minimisation.", "4/C13"),
-    "C15": ("Seeded operation histories in one interpreter compared with clean-room executions, in interpreted and compiled mode, twice.", "4/C15"),
+    "C15": ("Seeded operation histories in one interpreter compared with clean-room executions, in interpreted and compiled mode, twice; histories include reused problem objects, registrations, abandoned enumerations, dirty never-written memory, caller-owned parameter arrays refilled after construction, and models whose parameters and domain bounds approach 32 bits (where the two modes' integer widths differ).", "4/C15"),
     "C16": ("Two bounds-checking executors under the same seeded workloads: interpreted mode (any exception from a NuCS frame on an in-contract simulated run is a violation; sizes biased to what scratch arrays are sized from) and the JIT-compiled engine built with numba's bounds checking in a sacrificial interpreter (index errors raised behind function addresses are collected through sys.unraisablehook; death by signal is an abort). Monitor-strength claim only.", "4/C16"),
     "C17": ("Interposed event log of each simulated run; each of the 13 counters must equal the corresponding event count (every documented reading accepted), conservation laws for exhaustive enumeration; per-worker laws and sums through the simulated multiprocessing solver.", "4/C17"),
     "C18": ("Every (worker, death point, death kind) of bounded scenarios is enumerated in the process simulator, seeded sampling beyond; the parent call must return or raise within bounded virtual time - a SimDeadlock is the hang.", "4/C18"),
